@@ -1,7 +1,8 @@
 /-
 C20 — the serial (USB) stream resynchronises after noise with bounded buffering.
 Model: `N2k/Model/Serial.lean` = the buffer algorithm of `WaveShareNmea2000Gateway._receive_impl`
-after the repair `024dc88` (tie: T3), and `Wire.decodeUsb` for the checksum gate.
+after the repairs `024dc88` (bounded buffer) and the checksum-based resynchronisation (tie: T3; the checksum
+itself is the T2 translation), and `Wire.decodeUsb` for the checksum gate.
 Property theorems only; helpers in `N2k/Lemmas/Serial20.lean`.
 -/
 import N2k.Model.Serial
@@ -18,6 +19,10 @@ structure Framed (p : Bytes) : Prop where
   inner : findMarker (p.drop 1) = none
 
 def MarkerFree (n : Bytes) : Prop := findMarker n = none
+
+/-- a valid packet of the stream: well framed and with a matching checksum -/
+structure Valid (p : Bytes) : Prop extends Framed p where
+  sum : windowOk p = true
 
 /-- **Bounded buffering**: after every read, whatever arrives, at most 19 bytes are held back. -/
 theorem C20_buffer_bound (buf data : Bytes) : (feed buf data).1.length ≤ 19 := by
@@ -36,24 +41,44 @@ theorem C20_buffer_normal (buf data : Bytes) :
     feed (feed buf data).1 [] = ((feed buf data).1, []) := by
   rw [feed_eq_run (feed buf data).1, List.append_nil, feed_eq_run]; exact run_normal _
 
-/-- **Marker-free noise loses nothing**: packets separated by noise runs that contain no start
+/-- **Marker-free noise loses nothing**: valid packets separated by noise runs that contain no start
 marker are all handed to the decoder, in order, and nothing else is. -/
 theorem C20_noise_free_lossless (segs : List (Bytes × Bytes)) (tail : Bytes)
-    (hn : ∀ s ∈ segs, MarkerFree s.1) (hp : ∀ s ∈ segs, Framed s.2) (ht : MarkerFree tail) :
+    (hn : ∀ s ∈ segs, MarkerFree s.1) (hp : ∀ s ∈ segs, Valid s.2) (ht : MarkerFree tail) :
     (feed [] ((segs.map (fun s => s.1 ++ s.2)).flatten ++ tail)).2 = segs.map (·.2) := by
   rw [feed_eq_run, List.nil_append]
   exact run_lossless segs tail hn
-    (fun s hs => isPacket_of (hp s hs).len (hp s hs).b0 (hp s hs).b1 (hp s hs).inner) ht
+    (fun s hs => let h := hp s hs; isPacket_of h.len h.b0 h.b1 h.inner h.sum) ht
 
 /-- **Resynchronisation**: after ARBITRARY noise (markers included), a run of back-to-back
-well-framed packets is delivered from the second packet on at the latest: the delivered list ends
+valid packets is delivered from the second packet on at the latest: the delivered list ends
 with `ps.tail` and what precedes it came out of the noise (and possibly the first packet). -/
-theorem C20_resync_one (noise : Bytes) (ps : List Bytes) (hp : ∀ p ∈ ps, Framed p) :
+theorem C20_resync_one (noise : Bytes) (ps : List Bytes) (hp : ∀ p ∈ ps, Valid p) :
     ∃ pre, (feed [] (noise ++ ps.flatten)).2 = pre ++ ps.tail ∨
            (feed [] (noise ++ ps.flatten)).2 = pre ++ ps := by
   rw [feed_eq_run, List.nil_append]
   exact run_resync ps
-    (fun p h => isPacket_of (hp p h).len (hp p h).b0 (hp p h).b1 (hp p h).inner) noise
+    (fun p hm => let h := hp p hm; isPacket_of h.len h.b0 h.b1 h.inner h.sum) noise
+
+/-- a position in the stream at which a false packet starts: the marker is there and the 20 bytes from it pass the checksum -/
+def falsePacketAt (s : Bytes) (k : Nat) : Prop :=
+  (s.drop k).take 2 = [0xaa, 0x55] ∧ 20 ≤ (s.drop k).length ∧ windowOk ((s.drop k).take 20) = true
+
+/-- **Resynchronisation, sharper**: noise of any content — markers included — loses NO packet, unless a marker
+inside the noise happens to start 20 bytes that pass the checksum (1 chance in 256 per marker): then the client
+cannot tell that window from a packet.  Every window that starts inside the noise fails its checksum ⇒ every
+packet of the run is handed to the decoder, and nothing else is. -/
+theorem C20_resync_none (noise : Bytes) (ps : List Bytes) (hp : ∀ p ∈ ps, Valid p)
+    (hnf : ∀ k, k < noise.length → ¬ falsePacketAt (noise ++ ps.flatten) k) :
+    (feed [] (noise ++ ps.flatten)).2 = ps := by
+  rw [feed_eq_run, List.nil_append]
+  exact run_resync_none ps
+    (fun p hm => let h := hp p hm; isPacket_of h.len h.b0 h.b1 h.inner h.sum) noise
+    (fun k hk => hnf k hk)
+
+/-- only windows that pass the client's checksum test are handed to the decoder -/
+theorem C20_only_valid_windows (buf data : Bytes) : ∀ w ∈ (feed buf data).2, windowOk w = true ∧ w.length = 20 := by
+  rw [feed_eq_run]; exact run_only_valid _
 
 /-- **Checksum gate**: a 20-byte window whose checksum byte does not match is never decoded. -/
 theorem C20_checksum_gate (pkt : Bytes) (h : Straight.checksum pkt ≠ pkt.getD 19 0) :
@@ -69,8 +94,11 @@ theorem C20_checksum_covers (pkt : Bytes) :
   exact Nat.and_two_pow_sub_one_eq_mod _ 8
 
 -- non-vacuity
-example : Framed (Wire.encodeUsb 0x19F80123 [1, 2, 3]) := by
-  refine ⟨by decide +kernel, by decide +kernel, by decide +kernel, by decide +kernel⟩
+example : Valid (Wire.encodeUsb 0x19F80123 [1, 2, 3]) := by
+  refine ⟨⟨by decide +kernel, by decide +kernel, by decide +kernel, by decide +kernel⟩, by decide +kernel⟩
+-- a marker in the noise followed by a valid packet: the false window fails its checksum and the packet is NOT lost
+example : (feed [] ([0xaa, 0x55, 1, 2, 3] ++ Wire.encodeUsb 0x19F80123 [1, 2, 3] ++ Wire.encodeUsb 0x19F80123 [4])).2
+    = [Wire.encodeUsb 0x19F80123 [1, 2, 3], Wire.encodeUsb 0x19F80123 [4]] := by decide +kernel
 example : (feed [] ([0x11, 0xaa] ++ Wire.encodeUsb 0x19F80123 [1, 2, 3] ++ [0xaa])).2 = [Wire.encodeUsb 0x19F80123 [1, 2, 3]]
     ∧ (feed [] ([0x11, 0xaa] ++ Wire.encodeUsb 0x19F80123 [1, 2, 3] ++ [0xaa])).1 = [0xaa] := by decide +kernel
 
